@@ -48,7 +48,8 @@ class BasePickerModel(ABC):
             **kwargs,
             overlap_depth=depth,
             # dask parameters
-            depth=[int(d) for d in depth],
+            # NOTE: a list would be interpreted as "one depth per input array"
+            depth=tuple(int(d) for d in depth),
             trim=False,
             boundary=boundary,
             dtype=object,
